@@ -47,6 +47,7 @@ class Alphabet:
             "P7": (t[2], "n", {"a": x + "\n" + y}, {"v": -1.5}),
             "P8": (t[2], "m", {"b": y}, {"v": 2.5, "w": 3}),
             "PU": (t[1] + _dt.timedelta(microseconds=1), "m", {"a": y}, {"v": 2}),      # one microsecond after P1 / P2
+            "PH": (t[3], "m", {"a": x}, {"v": 2**53 + 1, "w": -(2**63)}),                 # integers a float cannot hold
             "PF": (_dt.datetime(2030, 1, 2, tzinfo=UTC), "m", {"a": x}, {"v": 1}),   # later than the virtual clock (2030-01-01)
             "P9": (t[2], "m", {}, {"v": 7}),                      # a second tag-less point (P4 has no tags either)
         }
@@ -175,6 +176,8 @@ class Alphabet:
             ("cmp", "fields", ("v",), ">", 0),
             ("cmp", "fields", ("v",), ">=", 2),
             ("cmp", "fields", ("v",), "==", None),
+            ("cmp", "fields", ("v",), "==", 2**53 + 1),
+            ("cmp", "fields", ("v",), "<=", 2**53),
             ("cmp", "fields", ("w",), "==", 1),
             ("cmp", "fields", ("zz",), "<", 5),
             ("exists", "fields", ("v",)),
